@@ -28,13 +28,19 @@ DATA_POOL = [
 ]
 
 
-def h_fidelity(x, bk, mode):
+def h_fidelity(x, bk, mode, recreated=False):
     """insert (single / bulk) an event with an arbitrary instant (us, any UTC offset), duration (us) and
     JSON data; listing and lookup return it exactly (exact arithmetic; IEEE fidelity is the ieee-* lemmas)"""
     pre = ST.sym_rows(x, "p", 1)
     be = ST.backend(bk)
     ds = be.make(x, {"A": pre, "B": []})
     try:
+        if recreated:
+            # the bucket id is in its second life on this store object: populated, deleted, created again
+            ds["A"].insert(ST.event_of_row(x, ST.sym_rows(x, "o", 1, ids=False)[0]))
+            ds.delete_bucket("A")
+            ds.create_bucket("A", "type-A", "client", "host-A", created=ST.T0, name="name-A", data={"d": "A"})
+            ds["A"].insert(ST.event_of_row(x, ST.sym_rows(x, "q", 1, ids=False)[0]))
         u = x.zint("u", 0, U_MAX)
         off = x.zint("off", -840, 840)
         d = x.zint("d", 0, D_MAX)
@@ -48,6 +54,10 @@ def h_fidelity(x, bk, mode):
         elif mode == "bulk1":
             b.insert([ev])  # a bulk insert of a single event
             rid = None
+        elif mode == "bulk_same_object":
+            # the caller's list mentions one Event object three times: three events are stored, each with its own id
+            b.insert([ev, ev, ev])
+            rid = None
         else:
             second = C.mk_event(x, u, d, {"other": 1}, aligned=False, off=off)
             b.insert([ev, second])
@@ -55,6 +65,18 @@ def h_fidelity(x, bk, mode):
         floor = u - u % 1000
         allrows = b.get(-1)
         mine = [e for e in allrows if e.data == keep]
+        if mode == "bulk_same_object":
+            ids = [C.zv(e.id) for e in allrows]
+            obl = [("count", len(allrows) == 4), ("three-events-stored", len(mine) == 3), ("ids-pairwise-distinct", And([ids[i] != ids[j] for i in range(len(ids)) for j in range(i + 1, len(ids))])),
+                   ("each-with-the-content", And([And(S.dt_us(g.timestamp) == floor, S.td_us(g.duration) == d) for g in mine])),
+                   ("each-found-by-its-id", all(b.get_by_id(g.id) is not None and b.get_by_id(g.id).data == keep for g in mine)),
+                   ("stored-events-are-separate-objects", len({id(g) for g in mine}) == len(mine) and len({id(g.data) for g in mine}) == len(mine))]
+            if len(mine) == 3:
+                # deleting one of them removes exactly that one
+                b.delete(mine[0].id)
+                left = b.get(-1)
+                obl.append(("delete-removes-exactly-one", len(left) == 3 and And([C.zv(e.id) != C.zv(mine[0].id) for e in left])))
+            return obl, [len(allrows)]
         obl = [("inserted-event-listed-once", len(mine) == 1), ("count", len(allrows) == (3 if mode == "bulk" else 2))]
         obs = [len(allrows)]
         if len(mine) == 1:
@@ -247,7 +269,9 @@ def harnesses(tier):
     ST.install_peewee()
     hs = []
     for bk in ["memory", "sqlite", "peewee"]:
-        for mode in ("single", "bulk1", "bulk"):
+        for mode in ("single", "bulk"):
+            hs.append((Harness(PROP, "%s-fidelity-%s-recreated-bucket" % (bk, mode), h_fidelity, dict(bk=bk, mode=mode, recreated=True), "%s: %s insertion into a bucket id that was populated, deleted and created again on the same store object" % (bk, mode)), 900))
+        for mode in ("single", "bulk1", "bulk", "bulk_same_object"):
             hs.append((Harness(PROP, "%s-fidelity-%s" % (bk, mode), h_fidelity, dict(bk=bk, mode=mode), "%s: %s insertion of an event with arbitrary microsecond instant, UTC offset, duration and pooled JSON data; get / get_by_id return it" % (bk, mode)), 900))
         for mode in ("insert", "bulk", "replace", "replace_last"):
             hs.append((Harness(PROP, "%s-ownership-%s" % (bk, mode), h_ownership, dict(bk=bk, mode=mode), "%s: mutation of the caller's event after %s, of events handed out and of metadata dicts" % (bk, mode)), 900))
